@@ -61,6 +61,17 @@ pub open spec fn commit_cache_wf(o: OutputData) -> bool { (o.commit matches Some
 pub open spec fn store_wf(s: WalletState) -> bool {
     keys_wf(s) && forall|k: OutKey| #[trigger] s.outputs.dom().contains(k) ==> commit_cache_wf(s.outputs[k])
 }
+// account labels scan invents: "account_<n>", different numbers give different labels
+pub uninterp spec fn spec_account_label(n: int) -> Seq<char>;
+#[verifier::external_body]
+pub proof fn axiom_account_label_injective(a: int, b: int) ensures spec_account_label(a) == spec_account_label(b) ==> a == b { }
+// A-accounts (assumption on the stored account table): a mapping is stored under its own label (save_acct_path is the only writer),
+// no stored account is called "account_<n>" for an n of 2^24 or more, and there are at most 2^24 accounts
+pub open spec fn accounts_ok(s: WalletState) -> bool {
+    &&& forall|l: Seq<char>| #[trigger] s.accounts.dom().contains(l) ==> s.accounts[l].label@ == l
+    &&& forall|n: int| n >= 0x100_0000 ==> !s.accounts.dom().contains(#[trigger] spec_account_label(n))
+    &&& seq_of_accounts(s.accounts).len() <= 0x100_0000
+}
 // A-log-amounts (assumption on stored log entries; a consequence of C01 for the entries the wallet itself writes): a debiting entry
 // debits at least its fee more than it credits
 pub open spec fn entry_amounts_ok(t: TxLogEntry) -> bool {
